@@ -29,5 +29,6 @@ def run(e, R, tier):
         L.r_block_mgr,
         C.r_feeder,
         B.r_waitset,
+        B.r_mgr_total,
     ])
     R.trust("stdlib facts: mp.Queue.put starts the feeder thread; Thread.start runs run(); Executor.map calls submit")
